@@ -397,9 +397,14 @@ where
         3 => {
             // also very small and very large scales: the step-size search has to halve / double far
             let d = g.range(1, 8);
-            let sc = match g.below(4) {
+            let sc = match g.below(5) {
                 0 => g.log_uniform(1e-6, 1e-3),
                 1 => g.log_uniform(1e2, 1e4),
+                // so narrow that the adapted step size falls below the scalar type's machine epsilon
+                2 => {
+                    rep.count("targets_narrower_than_machine_epsilon");
+                    if T::NAME == "f32" { g.log_uniform(1e-11, 1e-8) } else { g.log_uniform(1e-19, 1e-16) }
+                }
                 _ => 1.0,
             };
             let t = DiagGauss::new((0..d).map(|_| g.log_uniform(0.1, 10.0) / (sc * sc)).collect(), vec![0.0; d]);
